@@ -6,6 +6,7 @@ CLASS = 'C'
 CRATE = 'vibesql-storage'
 MODULE = 'database::indexes::verif_kani_idx'
 UNWIND = 4
+HARNESS_FILE = 'kani/storage/idx.rs'
 DOC = ('normalize_for_comparison preserves the numeric order (exact below 2^53); try_increment_sqlvalue / smart_increment_value '
        'return the exact successor (strictly greater, nothing strictly between, None only at the top) - what range_scan needs to turn '
        '> v into >= succ(v) and <= v into < succ(v) on composite keys')
